@@ -293,8 +293,9 @@ def run_case(case):
     if d == 0:
         # The span based equality of the plain Fragment class (start OR end coincide) is not an equivalence relation: pooling 0 compares a
         # candidate with every member, pooling 1 with the molecule's aggregated span, so on crafted single-end inputs the two legitimately group
-        # differently. Agreement of the pooling methods is demanded where grouping is well defined (site based classes, paired plain data).
-        if not single_end_plain and ref_parts[0] != ref_parts[1]:
+        # differently (also on paired data when far ends of different molecules coincide). Agreement of the pooling methods is demanded where
+        # grouping is well defined: the site based classes.
+        if not single_end_plain and method != 'plain' and ref_parts[0] != ref_parts[1]:
             acc.violate('pooling-methods-disagree', f'never-eject partitions of pooling 0 and 1 differ ({cfg})', {'config': cfg})
         acc.count('oracle:truth_compared')
         if method != 'plain' and set(map(frozenset, ref_parts[1])) != truth_part:
